@@ -427,8 +427,55 @@ func postRules(p *core.Prog, r *core.Report) {
 				}
 			}
 		})
-		if it {
-			r.OK(rule, "ApplyDefaults:all-members", p.Pos(f.Pos()), "ranges over every (object, member) of the result's FieldSchemata()")
+		// the loop over the members is left only by exhaustion (a `break` of the inner search must not leave it)
+		early := ""
+		for _, loop := range allLoopsOf(f) {
+			isMembers := false
+			var header *ssa.BasicBlock
+			for b := range loop {
+				dom := true
+				for o := range loop {
+					if !b.Dominates(o) {
+						dom = false
+					}
+				}
+				if dom {
+					header = b
+				}
+			}
+			if header == nil {
+				continue
+			}
+			for _, i := range header.Instrs {
+				if nx, is := i.(*ssa.Next); is {
+					if rg, is := nx.Iter.(*ssa.Range); is {
+						if _, isC := isCallOf(rg.X, "(*validate.Result).FieldSchemata"); isC {
+							isMembers = true
+						}
+					}
+				}
+			}
+			if !isMembers {
+				continue
+			}
+			for b := range loop {
+				if b == header {
+					continue
+				}
+				for _, sc := range b.Succs {
+					if !loop[sc] {
+						early = p.Pos(posOf(b.Instrs[len(b.Instrs)-1], f))
+					}
+				}
+				if len(b.Succs) == 0 {
+					early = p.Pos(posOf(b.Instrs[len(b.Instrs)-1], f))
+				}
+			}
+		}
+		if it && early != "" {
+			r.Bad(rule, "ApplyDefaults:all-members", p.Pos(f.Pos()), "the loop over the recorded (object, member) pairs is left before exhaustion ("+early+"): members after the first one filled keep no default")
+		} else if it {
+			r.OK(rule, "ApplyDefaults:all-members", p.Pos(f.Pos()), "ranges over every (object, member) of the result's FieldSchemata(), leaving the loop only by exhaustion")
 		} else {
 			r.Bad(rule, "ApplyDefaults:all-members", p.Pos(f.Pos()), "does not visit every recorded (object, member)")
 		}
@@ -527,8 +574,71 @@ func postRules(p *core.Prog, r *core.Report) {
 				}
 			}
 		})
-		if recMap && recSlice && callsObj {
-			r.OK(rule, "Prune:recursion", p.Pos(f.Pos()), "prunes each object and recurses into every map value and every slice element")
+		// every traversal loop visits all elements: it is left only by exhaustion (no return/break from the body),
+		// and the recursive call is conditional on nothing but the dynamic type of the element
+		exhaustive, whyNot := true, ""
+		for _, g := range []*ssa.Function{f, p.Func("pruneObject")} {
+			if g == nil {
+				continue
+			}
+			for _, loop := range allLoopsOf(g) {
+				var header *ssa.BasicBlock
+				for b := range loop {
+					dom := true
+					for o := range loop {
+						if !b.Dominates(o) {
+							dom = false
+						}
+					}
+					if dom {
+						header = b
+					}
+				}
+				for b := range loop {
+					if b == header {
+						continue
+					}
+					for _, sc := range b.Succs {
+						if !loop[sc] {
+							exhaustive = false
+							whyNot = "a traversal loop of " + g.Name() + " is left before every element was visited (" + p.Pos(posOf(b.Instrs[len(b.Instrs)-1], g)) + ")"
+						}
+					}
+					if len(b.Succs) == 0 {
+						exhaustive = false
+						whyNot = "a traversal loop of " + g.Name() + " returns from its body (" + p.Pos(posOf(b.Instrs[len(b.Instrs)-1], g)) + ")"
+					}
+				}
+				for b := range loop {
+					for _, i := range b.Instrs {
+						c, isC := i.(*ssa.Call)
+						if !isC {
+							continue
+						}
+						if h := core.StaticCallee(c); h == nil || (h.Name() != "prune" && h.Name() != "pruneObject") {
+							continue
+						}
+						for _, cd := range core.ControlConds(b) {
+							if !loop[cd.If.Block()] || cd.If.Block() == header {
+								continue
+							}
+							ex, isEx := cd.Value.(*ssa.Extract)
+							if isEx {
+								if ta, isTA := ex.Tuple.(*ssa.TypeAssert); isTA && ta.CommaOk {
+									continue
+								}
+							}
+							exhaustive = false
+							whyNot = "the recursion into an element is conditional on something other than its dynamic type (" + p.Pos(cd.If.Pos()) + ")"
+						}
+					}
+				}
+			}
+		}
+		if recMap && recSlice && callsObj && !exhaustive {
+			r.Bad(rule, "Prune:recursion", p.Pos(f.Pos()), "pruning no longer reaches every nested object: "+whyNot)
+		} else if recMap && recSlice && callsObj {
+			r.OK(rule, "Prune:recursion", p.Pos(f.Pos()), "prunes each object and recurses into every map value and every slice element; the traversal loops are left only by exhaustion")
 		} else {
 			r.Bad(rule, "Prune:recursion", p.Pos(f.Pos()), "pruning no longer reaches every nested object (map values and slice elements)")
 		}
